@@ -274,7 +274,7 @@ func ruleCL(w *world.World, r *report.RuleResult) {
 			return 0
 		}
 		// len(res) == 0 true edge
-		if bo, ok := iff.Cond.(*ssa.BinOp); ok && (bo.Op == token.EQL || bo.Op == token.LEQ) {
+		if bo, ok := world.CondValue(iff).(*ssa.BinOp); ok && (bo.Op == token.EQL || bo.Op == token.LEQ) {
 			if lc, ok := bo.X.(*ssa.Call); ok {
 				if bi, ok := lc.Call.Value.(*ssa.Builtin); ok && bi.Name() == "len" {
 					if k, ok := world.ConstInt(bo.Y); ok && k == 0 && si == 0 {
